@@ -471,3 +471,136 @@ def shadow_document(rng: Rng) -> tuple[dict, list[str]]:
         doc.pop("required", None)
         feats.append("shadow_in_definition")
     return doc, feats
+
+
+# ---------------------------------------------------------------- chains of root models (named non-object schemas referring to each other)
+# The innermost schema of a chain is a type whose rendering needs an import of its own; every further
+# level is a named schema that is nothing but a reference to the level below, directly or inside a
+# container / union.  Without --collapse-root-models every level is a RootModel / type alias; with it
+# the levels disappear and the members that referred to the chain's top are typed with the innermost
+# type directly — the import that type needs must then come from the surviving models.
+CHAIN_LEAVES: dict[str, dict] = {
+    "pattern": {"type": "string", "pattern": "^[A-Z]{3}$"},  # constr / Field(pattern=…)
+    "length": {"type": "string", "minLength": 1, "maxLength": 8},
+    "int_range": {"type": "integer", "minimum": 0, "maximum": 9},  # conint
+    "float_bound": {"type": "number", "exclusiveMaximum": 10},  # confloat
+    "date": {"type": "string", "format": "date"},
+    "date-time": {"type": "string", "format": "date-time"},
+    "time": {"type": "string", "format": "time"},
+    "duration": {"type": "string", "format": "duration"},  # timedelta
+    "uuid": {"type": "string", "format": "uuid"},
+    "decimal": {"type": "number", "format": "decimal"},
+    "uri": {"type": "string", "format": "uri"},  # AnyUrl
+    "path": {"type": "string", "format": "path"},  # pathlib.Path
+    "ipv4": {"type": "string", "format": "ipv4"},
+    "ipv6-network": {"type": "string", "format": "ipv6-network"},
+    "password": {"type": "string", "format": "password"},  # SecretStr
+    "custom_path": {"type": "string", "customTypePath": "pathlib.PurePosixPath"},
+    "custom_fraction": {"type": "string", "customTypePath": "fractions.Fraction"},
+    "any": {},  # typing.Any
+    "literal": {"const": "k"},  # typing.Literal
+    "list_of_date": {"type": "array", "items": {"type": "string", "format": "date"}},
+    "dict_of_uuid": {"type": "object", "additionalProperties": {"type": "string", "format": "uuid"}},
+    "unique_ints": {"type": "array", "uniqueItems": True, "items": {"type": "integer"}},
+    "union": {"anyOf": [{"type": "integer"}, {"type": "string", "format": "date"}]},
+}
+CHAIN_LINKS = ["alias", "alias", "array", "nullable", "dict", "union", "allOf"]
+CHAIN_USES = ["direct", "direct", "array", "nullable", "dict", "union", "tuple", "unique_array"]
+CHAIN_NAMES = ["Code", "Key", "Stamp", "Amount", "Label", "Slot", "Mark", "Unit", "Span", "Token", "Price", "Rank"]
+CHAIN_OPTION_AXES = [("collapse_root_models", 5, 6), ("field_constraints", 1, 2), ("use_annotated", 1, 3), ("reuse_model", 1, 3), ("use_standard_collections", 1, 4),
+                     ("use_union_operator", 1, 4), ("use_generic_container_types", 1, 6), ("strict_nullable", 1, 6), ("use_unique_items_as_set", 1, 4),
+                     ("keep_model_order", 1, 8), ("use_field_description", 1, 8), ("use_title_as_name", 1, 8)]
+
+
+def _wrap(kind: str, ref: dict) -> dict:
+    if kind in ("alias", "direct"):
+        return dict(ref)
+    if kind == "array":
+        return {"type": "array", "items": ref}
+    if kind == "unique_array":
+        return {"type": "array", "uniqueItems": True, "items": ref}
+    if kind == "nullable":
+        return {"anyOf": [ref, {"type": "null"}]}
+    if kind == "dict":
+        return {"type": "object", "additionalProperties": ref}
+    if kind == "union":
+        return {"anyOf": [ref, {"type": "boolean"}]}
+    if kind == "allOf":
+        return {"allOf": [ref]}
+    if kind == "tuple":
+        return {"type": "array", "items": [ref, {"type": "integer"}]}
+    raise ValueError(kind)
+
+
+def chain_options(rng: Rng) -> dict:
+    opts: dict[str, Any] = {}
+    for name, num, den in CHAIN_OPTION_AXES:
+        if rng.chance(num, den):
+            opts[name] = True
+    if opts.get("use_annotated"):
+        opts["field_constraints"] = True  # the CLI couples them
+    return opts
+
+
+def chain_document(rng: Rng, modular: bool = False) -> tuple[dict, list[str]]:
+    """1–2 chains of named non-object schemas (depth 1–4, mostly ≥ 2) over the leaf types of
+    CHAIN_LEAVES, used by the members of the root object and (sometimes) of a second object; sometimes
+    another surviving member uses the same leaf type directly, so that the import is — or is not —
+    provided independently of the chain.  `modular`: the chain levels live in dotted definitions
+    (`pkg.Code`), i.e. in another module of a package output."""
+    names = rng.shuffle(CHAIN_NAMES)
+    feats: list[str] = []
+    defs: dict[str, Any] = {}
+    props: dict[str, Any] = {}
+    required: list[str] = []
+    tops: list[tuple[str, str]] = []
+
+    def dname(n: str, level: int) -> str:
+        return (rng.choice(["pkg.", "pkg.sub.", "lib."]) + n) if modular and (level > 0 or rng.chance(1, 2)) else n
+
+    for c in range(rng.choice([1, 1, 2])):
+        leaf = rng.choice(list(CHAIN_LEAVES))
+        depth = rng.choice([1, 2, 2, 2, 3, 3, 4])
+        feats += [f"chain_leaf:{leaf}", f"chain_depth:{depth}"]
+        prev = dname(names.pop(), 0)
+        defs[prev] = json_copy(CHAIN_LEAVES[leaf])
+        if rng.chance(1, 6):
+            defs[prev]["description"] = "text"
+        for level in range(1, depth):
+            link = rng.choice(CHAIN_LINKS)
+            feats.append("chain_link:" + link)
+            cur = dname(names.pop(), level)
+            defs[cur] = _wrap(link, _ref(prev))
+            if rng.chance(1, 6):
+                defs[cur]["title"] = cur.split(".")[-1] + "Title"
+            prev = cur
+        tops.append((prev, leaf))
+        for u in range(rng.choice([1, 1, 2])):
+            use = rng.choice(CHAIN_USES)
+            feats.append("chain_use:" + use)
+            member = f"{'abcd'[c]}{u}"
+            # a member may also enter the chain below its top
+            target = prev if rng.chance(3, 4) else rng.choice([d for d in defs])
+            props[member] = _wrap(use, _ref(target))
+            if rng.chance(1, 2):
+                required.append(member)
+        if rng.chance(1, 4):  # the same leaf type once more, directly: the import has another provider
+            feats.append("chain_leaf_also_direct")
+            props[f"direct{c}"] = json_copy(CHAIN_LEAVES[leaf])
+    props["count"] = {"type": "integer"}
+    if rng.chance(1, 3):  # a second surviving class that uses a chain
+        feats.append("chain_second_object")
+        other = names.pop()
+        t, _ = rng.choice(tops)
+        defs[other] = {"type": "object", "properties": {"v": _wrap(rng.choice(CHAIN_USES), _ref(t)), "n": {"type": "string"}}}
+        props["other"] = _ref(other)
+    if rng.chance(1, 6):  # two chains that end in the same schema text (reuse_model merges them)
+        feats.append("chain_twin")
+        t, leaf = tops[0]
+        twin = names.pop()
+        defs[twin] = json_copy(defs[t])
+        props["twin"] = _ref(twin)
+    doc: dict[str, Any] = {"title": rng.choice(["Model", "Root", "Doc"]), "type": "object", "properties": props, "definitions": defs}
+    if required:
+        doc["required"] = required
+    return doc, feats
